@@ -41,7 +41,7 @@ struct ProbeOut {
     path: Vec<String>,
 }
 
-async fn probe(w: &ClusterWorld, start: &str, key: &str, uniq: u64) -> ProbeOut {
+pub async fn probe(w: &ClusterWorld, start: &str, key: &str, uniq: u64) -> ProbeOut {
     let val = format!("v{}", uniq);
     let mut cur = start.to_string();
     let mut path = vec![cur.clone()];
@@ -184,12 +184,14 @@ pub struct Rig {
 }
 
 impl Rig {
-    fn emit(&mut self, v: Value) {
+    pub fn emit(&mut self, v: Value) {
         self.out.push(v);
     }
 
-    async fn op(&mut self, op: Op) -> String {
+    pub async fn op(&mut self, op: Op) -> String {
         let (res, args, _out) = self.w.broker.apply(&op).await;
+        let snap = self.w.broker.raw_store().await;
+        self.w.broker.snapshots.push(snap);
         self.w.refresh_broker_handle();
         self.w.ensure_proxies().await;
         let name = serde_json::to_value(&op).ok().and_then(|v| v["op"].as_str().map(String::from)).unwrap_or_default();
@@ -197,7 +199,7 @@ impl Rig {
         res
     }
 
-    async fn settle(&self) {
+    pub async fn settle(&self) {
         // let background tasks (migration handshakes with 10ms polls, scans) make progress
         for _ in 0..30 {
             tokio::time::sleep(Duration::from_millis(10)).await;
@@ -206,7 +208,7 @@ impl Rig {
 
     /// record the broker's views (the ones the coordinator serves from), every proxy's epoch,
     /// routing probes and advertised topology
-    async fn observe(&mut self, phase: &str, migrating_probe_at_src: bool) {
+    pub async fn observe(&mut self, phase: &str, migrating_probe_at_src: bool) {
         let (s, obs) = self.w.broker.observe().await;
         let svc_clusters = obs["svc"]["clusters"].clone();
         let svc_proxies = obs["svc"]["proxies"].clone();
@@ -282,12 +284,12 @@ impl Rig {
         }
     }
 
-    async fn sync(&mut self) {
+    pub async fn sync(&mut self) {
         let errs = self.w.sync_round("coord1").await;
         self.emit(json!({"kind": "sync", "errors": errs}));
     }
 
-    async fn is_migrating(&self, name: &str) -> bool {
+    pub async fn is_migrating(&self, name: &str) -> bool {
         let raw = self.w.broker.raw_store().await;
         raw["clusters"][name]["chunks"]
             .as_array()
@@ -296,7 +298,7 @@ impl Rig {
     }
 
     /// a scale episode driven through the real migration: probes at PreCheck, mid-way and after commit
-    async fn scale_episode(&mut self, name: &str, out: bool) {
+    pub async fn scale_episode(&mut self, name: &str, out: bool) {
         self.w.hold(&["PRECHECK"]).await;
         let res = if out {
             let r = self.op(Op::AddNodes { name: name.to_string(), n: 4 }).await;
